@@ -4,6 +4,7 @@ use serde_json::Value;
 
 mod c04;
 mod c09;
+mod c11;
 mod c13;
 mod c18;
 mod fsops;
@@ -22,6 +23,7 @@ fn main() {
         "c04" => cases.iter().map(c04::run).collect(),
         "c09" => cases.iter().map(c09::run).collect(),
         "fsops" => cases.iter().map(fsops::run).collect(),
+        "c11" => cases.iter().map(c11::run).collect(),
         "c13" => cases.iter().map(c13::run).collect(),
         "c18" => cases.iter().map(c18::run).collect(),
         other => {
